@@ -73,6 +73,8 @@ func lockSite() string {
 	}
 }
 
+var traceSites = os.Getenv("VERIF_TRACE_SITES") != ""
+
 type nopT struct{}
 
 func (nopT) Errorf(format string, args ...interface{}) {}
@@ -150,6 +152,7 @@ type node struct {
 	stickyH   int64
 	stickyInc int
 	touched   bool
+	fsSendSeq int // fast-sync block requests handed to the network by this node (all incarnations)
 	lock      lockObs // last observed lock (white-box lock monitor)
 	commitRecs map[int64]*commitRecord // height -> last precommit list this node wrote to its commit WAL
 }
@@ -175,6 +178,8 @@ type incarnation struct {
 	bm     module.BlockManager
 	cs     module.Consensus
 	mtx    *common.Mutex
+	fsMtx  []*common.Mutex // fast-sync client and server mutexes (registered once Start created them)
+	fsReg  bool
 	started atomic.Bool
 	startErr error
 	termed bool
@@ -186,6 +191,7 @@ type mutexState struct {
 	holder uint64 // goroutine that currently holds it
 	node *node
 	inc  *incarnation
+	kind int // 0 consensus mutex, 1 fast-sync client, 2 fast-sync server
 	held bool
 }
 
@@ -259,6 +265,7 @@ type sim struct {
 	start    time.Time
 	wake     chan struct{}
 	lockReqs []*lockReq
+	laggard  *node // fastsync profile: the validator that boots late (set when it boots)
 	mutexes  map[*common.Mutex]*mutexState
 	genesis  string
 	obs      []func() // observations queued by SUT goroutines, flushed by the driver
@@ -372,6 +379,9 @@ func (s *sim) grantOne() bool {
 		if a.ms.inc.n != b.ms.inc.n {
 			return a.ms.inc.n < b.ms.inc.n
 		}
+		if a.ms.kind != b.ms.kind {
+			return a.ms.kind < b.ms.kind
+		}
 		// goroutine ids only order siblings reliably (creation order between
 		// unrelated parents - runtime timers vs the driver - depends on
 		// preemption), so the requesting call site comes first
@@ -382,7 +392,18 @@ func (s *sim) grantOne() bool {
 	})
 	ci := s.tape.Choose("grant", len(cands))
 	r := cands[ci]
-	s.rc.Event("GRANT n%d %d/%d", r.ms.node.idx, ci, len(cands))
+	if traceSites {
+		var ss []string
+		for _, c := range cands {
+			ss = append(ss, fmt.Sprintf("n%d.k%d.%s", c.ms.node.idx, c.ms.kind, c.site[strings.LastIndex(c.site, "/")+1:]))
+		}
+		s.rc.Event("GRANT-SITES %v", ss)
+	}
+	if r.ms.kind == 0 {
+		s.rc.Event("GRANT n%d %d/%d", r.ms.node.idx, ci, len(cands))
+	} else {
+		s.rc.Event("GRANT n%d fs%d %d/%d", r.ms.node.idx, r.ms.kind, ci, len(cands))
+	}
 	r.ms.held = true
 	r.ms.holder = r.gid
 	r.ms.node.touched = true
@@ -501,6 +522,41 @@ func (s *sim) boot(inc *incarnation) {
 		inc.started.Store(true)
 		s.poke()
 	}()
+}
+
+// registerFastSyncMutexes runs on the driver at quiescence: once an
+// incarnation's Start has created its syncer, the fast-sync client and server
+// mutexes are scheduled like the consensus mutex (fetcher timeouts, responses
+// and joins of one node otherwise race for them in wall-clock order).
+func (s *sim) registerFastSyncMutexes() {
+	for _, n := range s.nodes {
+		inc := n.inc
+		if inc == nil || inc.fsReg || !inc.started.Load() || inc.cs == nil || inc.startErr != nil {
+			continue
+		}
+		inc.fsReg = true
+		ms := consensus.SimFastSyncMutexesOf(inc.cs)
+		s.mu.Lock()
+		for i, m := range ms {
+			s.mutexes[m] = &mutexState{node: n, inc: inc, kind: i + 1}
+		}
+		inc.fsMtx = ms
+		s.mu.Unlock()
+	}
+}
+
+// holdsRegisteredMutex reports whether goroutine gid holds one of the
+// incarnation's scheduled mutexes (caller holds s.mu).
+func (s *sim) holdsRegisteredMutex(inc *incarnation, gid uint64) bool {
+	if ms := s.mutexes[inc.mtx]; ms != nil && ms.held && ms.holder == gid {
+		return true
+	}
+	for _, m := range inc.fsMtx {
+		if ms := s.mutexes[m]; ms != nil && ms.held && ms.holder == gid {
+			return true
+		}
+	}
+	return false
 }
 
 func (s *sim) observe(f func()) {
